@@ -170,9 +170,16 @@ TraceFail ==
 ------------------------------------------------------------------------------
 (* implementation level: one event per primitive call (hooked builds only)   *)
 KeyOfType(ty) == ty      \* "lab_types::Key" on both sides
-FieldAt(v, off, size, ty) ==
-  LET c == {f \in Range(FieldsOf(def, v)) : f.off = off /\ f.size = size /\ ("lab_types::" \o f.key) = ty}
-  IN IF c = {} THEN <<>> ELSE CHOOSE f \in c : TRUE
+\* The field a primitive touches is identified by (offset, size, type).  Several zero-size fields
+\* of one type can share an offset and are then indistinguishable in the event: a store goes to
+\* one that is not stored yet, a load / reference to one that is.
+FieldsAt(v, off, size, ty) ==
+  {f \in Range(FieldsOf(def, v)) : f.off = off /\ f.size = size /\ ("lab_types::" \o f.key) = ty}
+FieldAt(v, off, size, ty, cur, k) ==
+  LET c == FieldsAt(v, off, size, ty)
+      stored == {f \in c : \E x \in cur : x.fid = f.fid}
+      pref == IF k = "write" THEN c \ stored ELSE stored
+  IN IF c = {} THEN <<>> ELSE IF pref # {} THEN CHOOSE f \in pref : TRUE ELSE CHOOSE f \in c : TRUE
 
 \* which buffer and which variant a primitive belongs to: <<"slot", s, v>> | <<"tmp", 0, v>> | <<>>
 Target ==
@@ -196,8 +203,8 @@ TracePrim ==
   /\ LET t == Target IN
      IF t = <<>> \/ t[3] \notin DOMAIN def.variants
      THEN UNCHANGED <<ext, tmp>> /\ Consume({"C07:storage-access-outside-any-operation-on-a-live-record"})
-     ELSE LET f == FieldAt(t[3], e.off, e.size, e.ty)
-              cur == IF t[1] = "tmp" THEN tmp ELSE ext[t[2]]
+     ELSE LET cur == IF t[1] = "tmp" THEN tmp ELSE ext[t[2]]
+              f == FieldAt(t[3], e.off, e.size, e.ty, cur, e.k)
               fid == IF f = <<>> THEN 0 ELSE f.fid
               nxt == IF f = <<>> THEN cur
                      ELSE IF e.k = "read" THEN AfterRead(cur, e.off, e.size, fid, e.drop)
